@@ -30,6 +30,9 @@ type Run struct {
 	TimeoutS int // per worker process watchdog
 	Prop     string
 	Extra    []string // extra worker args
+	// MaxAttempts bounds the restarts after crashes (default 25); workloads whose
+	// batch is one indivisible history use a small number
+	MaxAttempts int
 }
 
 type Violation struct {
@@ -40,6 +43,8 @@ type Violation struct {
 	Msg    string      `json:"msg"`
 	Detail interface{} `json:"detail,omitempty"`
 	Also   string      `json:"also_run,omitempty"` // second run of a cross-process comparison
+	// AlsoBatch1-1 is a second batch of the same run to replay (C09: the baseline history)
+	AlsoBatch1 int `json:"also_batch_plus_1,omitempty"`
 }
 
 type BatchResult struct {
@@ -183,7 +188,11 @@ func runBatch(r *Run, batch int, dir string) *BatchResult {
 	logPath := filepath.Join(dir, fmt.Sprintf("%s.b%d.log", r.Name, batch))
 	res.LogPath = logPath
 	start := 0
-	for attempt := 0; attempt < 25; attempt++ {
+	maxAttempts := 25
+	if r.MaxAttempts > 0 {
+		maxAttempts = r.MaxAttempts
+	}
+	for attempt := 0; attempt < maxAttempts; attempt++ {
 		stderrPath := fmt.Sprintf("%s.err%d", logPath, attempt)
 		args := []string{"-prop", r.Prop, "-tier", tier, "-seed", strconv.FormatUint(seed, 10), "-batch", strconv.Itoa(batch),
 			"-nbatch", strconv.Itoa(r.NBatch), "-start", strconv.Itoa(start), "-out", logPath, "-mode", r.Mode, "-waive", strings.Join(openWaivers, ",")}
